@@ -175,6 +175,9 @@ func (cpi *Iterator) Next() (*types.Block, error) {
 
 // StorageSize returns bytes of storage used by the freelist.
 func (fl *FreeList) StorageSize() (int64, error) {
+	// The file is replaced by ToGC while holding flushLock.
+	fl.flushLock.Lock()
+	defer fl.flushLock.Unlock()
 	fi, err := fl.file.Stat()
 	if err != nil {
 		if os.IsNotExist(err) {
